@@ -5,13 +5,14 @@ From Coq Require Import Uint63.
 
 (* ---- static facts of the program (known to the generator by construction) ---- *)
 
-Inductive lmode := LExact | LRange | LNone.
+Inductive lmode := LExact | LRange | LNone | LZero.
 
 (* one observed line number:
    spec: LRange — the number must lie in the admissible range of the innermost statement (or
                   block header) containing token ld_spec, the same token of that range in every
                   layout;
          LExact — it must be the line of token ld_spec in every layout;
+         LZero  — linedefined / lastlinedefined of a main chunk: 0 (it is defined on no line);
          LNone  — there is no line to report (a level that falls on a frame lost to a tail
                   call): currentline/linedefined are -1, an error message gets no position;
    impl: gopher reports the line of token ld_impl (first token of the AST node that performs
@@ -101,6 +102,7 @@ Fixpoint zrange (a : Z) (n : nat) : list Z :=
 Definition line_spec (stmts : list stmt) (d : ldesc) (os : list (Z * list (Z * Z))) : bool :=
   match ld_mode d with
   | LNone => forallb (fun o => fst o =? -1) os
+  | LZero => forallb (fun o => fst o =? 0) os
   | LExact => forallb (fun o => fst o =? tokline (snd o) (ld_spec d)) os
   | LRange =>
       match innermost stmts (ld_spec d) None with
@@ -116,6 +118,7 @@ Definition line_spec (stmts : list stmt) (d : ldesc) (os : list (Z * list (Z * Z
 Definition line_impl (d : ldesc) (os : list (Z * list (Z * Z))) : bool :=
   match ld_mode d with
   | LNone => forallb (fun o => fst o =? -1) os
+  | LZero => forallb (fun o => fst o =? 0) os
   | _ => forallb (fun o => fst o =? tokline (snd o) (ld_impl d)) os
   end.
 
